@@ -1,6 +1,7 @@
 import NomtModel.Store.WalkerSimTop
 import NomtModel.Store.WalkerSimRun
 import NomtModel.Store.WalkerGSimRun
+import NomtModel.Store.WalkerTreeLogInv
 /-!
 # The walk without parent page on the mirror: no panic, the specified root, every output page right
 -/
@@ -16,39 +17,37 @@ theorem runInv_run (hs : H.Sound) {D : Path → Prop} {pp : Option PageId} {root
     ∀ (todo done : List (Step VH)) (w : Walker Node) (a : TW Node), ScriptOK S S' (done ++ todo) →
       PSOK ps (done ++ todo) → PathsIn D (done ++ todo) → InScope pp (done ++ todo) →
       RunInv H ps D pp root S S' done todo w a →
-      (∃ w', w.runM H ps todo = .ok w' ∧
-        RunInv H ps D pp root S S' (done ++ todo) [] w' (a.run H (cfgOf H ps pp) todo)) ∨
-      w.runM H ps todo = .panic GUARD := by
+      ∀ (Lfin : List (PageId × Store Node)), (Lfin.map (·.1)).Nodup → (a.run H (cfgOf H ps pp) todo).log <+: Lfin →
+      ∃ w', w.runM H ps todo = .ok w' ∧
+        RunInv H ps D pp root S S' (done ++ todo) [] w' (a.run H (cfgOf H ps pp) todo) := by
   intro todo
   induction todo with
-  | nil => intro done w a _ _ _ _ h; exact Or.inl ⟨w, rfl, by simpa [TW.run] using h⟩
+  | nil => intro done w a _ _ _ _ h _ _ _; exact ⟨w, rfl, by simpa [TW.run] using h⟩
   | cons s todo ih =>
-    intro done w a hso hps hDp hscp h
-    rcases runInv_step H ps hs hS hS' hso hps hrep hDp hD0 hscp h with ⟨w1, hw1, h1⟩ | hp
-    case inr =>
-      right
-      simp only [Walker.runM]; rw [hp]
+    intro done w a hso hps hDp hscp h Lfin hnd hpre
+    have hpre1 : (a.step H (cfgOf H ps pp) s).log <+: Lfin :=
+      List.IsPrefix.trans (tw_run_log_prefix H (cfgOf H ps pp) todo _) (by simpa [TW.run] using hpre)
+    obtain ⟨w1, hw1, h1⟩ := runInv_step H ps hs hS hS' hso hps hrep hDp hD0 hscp h Lfin hnd hpre1
     have e : (done ++ [s]) ++ todo = done ++ s :: todo := by simp
-    rcases ih (done ++ [s]) w1 _ (by rw [e]; exact hso) (by rw [e]; exact hps) (by rw [e]; exact hDp)
-      (by rw [e]; exact hscp) h1 with ⟨w2, hw2, h2⟩ | hp2
-    · refine Or.inl ⟨w2, ?_, ?_⟩
-      · simp only [Walker.runM]; rw [hw1]; exact hw2
-      · simpa [TW.run] using h2
-    · right
-      simp only [Walker.runM]; rw [hw1]; exact hp2
+    obtain ⟨w2, hw2, h2⟩ := ih (done ++ [s]) w1 _ (by rw [e]; exact hso) (by rw [e]; exact hps) (by rw [e]; exact hDp)
+      (by rw [e]; exact hscp) h1 Lfin hnd (by simpa [TW.run] using hpre)
+    refine ⟨w2, ?_, ?_⟩
+    · simp only [Walker.runM]; rw [hw1]; exact hw2
+    · simpa [TW.run] using h2
 
 theorem runInv_start (D : Path → Prop) (pp : Option PageId) (root : Node) (S S' : List (Key × VH))
     (steps : List (Step VH)) (inhibit : Bool) :
     RunInv H ps D pp root S S' [] steps (Walker.startP root pp inhibit)
-      (⟨[], flatStore H ps root, [], []⟩ : TW Node) := by
+      ({ pos := [], store := flatStore H ps root, log := [], cpr := [] } : TW Node) := by
   refine ⟨?_, rfl, rfl, Or.inl ⟨⟨by simp, rfl, rfl, rfl⟩, by simp⟩, rfl⟩
-  have hrecon : ReconInv H (Walker.startP root pp inhibit) (⟨[], flatStore H ps root, [], []⟩ : TW Node) := by
+  have hrecon : ReconInv H (Walker.startP root pp inhibit) ({ pos := [], store := flatStore H ps root, log := [], cpr := [] } : TW Node) := by
     refine ⟨?_, ?_, ?_, ?_⟩
     · intro o ho; cases ho
     · intro hr; cases hr
     · intro hr; cases hr
     · intro hr; cases hr
-  refine ⟨Pos.wf_new, rfl, ?_, ?_, ?_, trivial, ?_, ?_, hrecon, rfl, ?_, rfl, ?_⟩
+  refine ⟨Pos.wf_new, rfl, ?_, ?_, ?_, trivial, ?_, ?_, hrecon, rfl, ?_, rfl, ?_, ?_,
+    ⟨List.nodup_nil, fun q hq => by cases hq⟩⟩
   · simp [Walker.startP, Walker.new, Walker.newInner, flatStore]
   · simp [Walker.startP, Walker.new, Walker.newInner]
   · intro sp rest e; cases e
@@ -56,24 +55,73 @@ theorem runInv_start (D : Path → Prop) (pp : Option PageId) (root : Node) (S S
   · intro sp hsp; cases hsp
   · intro o ho; cases ho
   · intro sp hsp; cases hsp
+  · intro sp hsp; cases hsp
+
+/-- **no page is left twice** along a whole walk: the ids of the final log of the tree walker are pairwise distinct -/
+theorem final_log_nodup (hs : H.Sound) {D : Path → Prop} (pp : Option PageId) {root : Node} {S S' : List (Key × VH)}
+    (hS : KeysOK S) (hS' : KeysOK S') {steps : List (Step VH)} (hso : ScriptOK S S' steps)
+    (hrep : Rep0 H D S (flatStore H ps root)) (hDp : PathsIn D steps) :
+    (((({ pos := [], store := flatStore H ps root, log := [], cpr := [] } : TW Node).run H (cfgOf H ps pp) steps).conclude H
+      (cfgOf H ps pp)).log.map (·.1)).Nodup := by
+  have h1 := tw_run_idle_logPos H D hs hS hS' hrep (cfgOf H ps pp) steps []
+    ({ pos := [], store := flatStore H ps root, log := [], cpr := [] } : TW Node) (by simpa using hso) (by simpa using hDp)
+    ⟨by simp, rfl, rfl, rfl⟩ (by intro s hs'; cases hs')
+  exact (logPos_compactUp H (cfgOf H ps pp) _ none h1).1
+
+theorem eq_of_nodup_map {α β : Type} (f : α → β) : ∀ (l : List α), (l.map f).Nodup → ∀ x ∈ l, ∀ y ∈ l, f x = f y → x = y := by
+  intro l
+  induction l with
+  | nil => intro _ x hx; cases hx
+  | cons z zs ih =>
+    intro hnd x hx y hy e
+    rw [List.map_cons, List.nodup_cons] at hnd
+    rcases List.mem_cons.mp hx with hx | hx <;> rcases List.mem_cons.mp hy with hy | hy
+    · rw [hx, hy]
+    · exfalso; apply hnd.1; rw [← hx, e]; exact List.mem_map_of_mem hy
+    · exfalso; apply hnd.1; rw [← hy, ← e]; exact List.mem_map_of_mem hx
+    · exact ih hnd.2 x hx y hy e
+
+/-- once the stack is empty, every slot the tree walker wrote into a page that was handed out is named by that page's diff -/
+theorem named_outputs {w : Walker Node} {a : TW Node} (h : Sim H ps w a) (hst : w.stack = []) :
+    ∀ o ∈ w.outputPages, ∀ q ∈ a.wl, q ≠ [] → specPage q = o.pageId → o.diff.changed (specIndex q) = true := by
+  intro o ho q hq hne hqp
+  rcases h.named.2 q hq hne with ⟨sp, hsp, _⟩ | ⟨o', ho', h1, h2⟩ | ⟨_, h2⟩
+  · rw [hst] at hsp; cases hsp
+  · have : o' = o := eq_of_nodup_map PageOut.pageId _ h.named.1 o' ho' o ho (by rw [h1, hqp])
+    rw [← this]; exact h2
+  · exact absurd hqp.symm (h2 o ho)
+
+/-- after `conclude` the tree walker is back at the top layer -/
+theorem conclude_pos_le (hs : H.Sound) {D : Path → Prop} {pp : Option PageId} {root : Node} {S S' : List (Key × VH)}
+    (hS' : KeysOK S') {all : List (Step VH)} (hso : ScriptOK S S' all)
+    (hrep : Rep0 H D S (flatStore H ps root)) {w : Walker Node} {a : TW Node}
+    (h : RunInv H ps D pp root S S' all [] w a) :
+    (a.conclude H (cfgOf H ps pp)).pos.length ≤ 6 * k0 pp := by
+  rcases h.tw with ⟨hidle, _⟩ | ⟨hinv, _⟩
+  · have hconc : a.conclude H (cfgOf H ps pp) = a := by
+      unfold TW.conclude; exact tw_compactUp_idle H _ a _ hidle.pos
+    rw [hconc]; exact hidle.pos
+  · obtain ⟨c1, _⟩ := tw_conclude_spec H D hs hS' hso hrep (cfgOf H ps pp) a hinv _ rfl
+    rw [c1, List.length_take]
+    exact Nat.min_le_left _ _
 
 /-- `conclude` after a script -/
 theorem conclude_spec (hs : H.Sound) {D : Path → Prop} {root : Node} {S S' : List (Key × VH)} (hS : KeysOK S)
     (hS' : KeysOK S') {all : List (Step VH)} (hso : ScriptOK S S' all)
     (hrep : Rep0 H D S (flatStore H ps root)) (hD0 : D []) {w : Walker Node} {a : TW Node}
-    (h : RunInv H ps D none root S S' all [] w a) :
-    (∃ pages, w.conclude H = .ok (.root (specNode H S' []) pages) ∧
+    (h : RunInv H ps D none root S S' all [] w a)
+    (hnd : ((a.conclude H (cfgOf H ps none)).log.map (·.1)).Nodup) :
+    ∃ pages, w.conclude H = .ok (.root (specNode H S' []) pages) ∧
       ∀ o ∈ pages, ∃ P pg d b, o = .updated P pg d b ∧ pg.nodes.length = 126 ∧
         (∀ q, q ≠ [] → q.length ≤ 256 → specPage q = P → D q → Mean S' q →
           pg.nodes.getD (specIndex q) H.term = specNode H S' q) ∧
-        ∃ base, BaseOf ps P base ∧ DiffNames H pg.nodes base d) ∨
-    w.conclude H = .panic GUARD := by
-  rcases sim_compactUp H ps h.sim none (by intro t ht; cases ht) []
-    (fun hr => absurd hr (by rw [h.norec]; simp)) with ⟨w1, hw1, hs1, hsame1⟩ | ⟨_, hp⟩
-  case inr =>
-    right
-    unfold Walker.conclude
-    rw [if_neg (by rw [h.norec]; simp), hp]
+        (∃ base, BaseOf ps P base ∧ DiffNames H pg.nodes base d) ∧
+        ∀ q ∈ (a.conclude H (cfgOf H ps none)).wl, q ≠ [] → specPage q = P → d.changed (specIndex q) = true := by
+  have hposle := conclude_pos_le H ps hs hS' hso hrep h
+  obtain ⟨w1, hw1, hs1, hsame1⟩ := sim_compactUp H ps h.sim none (by intro t ht; cases ht)
+    (a.conclude H (cfgOf H ps none)).log hnd
+    ⟨fun hr => absurd hr (by rw [h.norec]; simp), by
+      rw [h.par]; simp only [Option.map_none]; exact List.prefix_refl _⟩
   have hnr1 : w1.reconstruction = false := hsame1.2.2.2.2.trans h.norec
   rw [h.par] at hs1
   simp only [Option.map_none] at hs1
@@ -109,35 +157,41 @@ theorem conclude_spec (hs : H.Sound) {D : Path → Prop} {root : Node} {S S' : L
       have := (c3 rfl).1
       rw [hp] at this
       exact ⟨this, c4⟩
-  refine Or.inl ⟨w1.outputPages, ?_, ?_⟩
+  refine ⟨w1.outputPages, ?_, ?_⟩
   · have : w1.root = specNode H S' [] := by
       rw [hs1.root]; exact htw.1
     rw [this]
   · intro o ho
     obtain ⟨P, pg, d, b, st, e, hmem, hl, hm, hdiff⟩ := outMatches_updated H hs1 hnr1 o ho
-    refine ⟨P, pg, d, b, e, hl, ?_, hdiff⟩
-    intro q hq hql hqp hD hmean
-    rw [hm q hq hql hqp]
-    exact htw.2 (P, st) hmem q hq hqp hql hD hmean
+    refine ⟨P, pg, d, b, e, hl, ?_, hdiff, ?_⟩
+    · intro q hq hql hqp hD hmean
+      rw [hm q hq hql hqp]
+      exact htw.2 (P, st) hmem q hq hqp hql hD hmean
+    · intro q hq hne hqp
+      have hst1 : w1.stack = [] := hs1.stackE.mpr (by
+        show (a.compactUp H (cfgOf H ps none) none).pos.length ≤ _
+        rw [hpar1]; exact hposle)
+      have := named_outputs H ps hs1 hst1 o ho q hq hne (by rw [hqp, e]; rfl)
+      rw [e] at this; exact this
 
 /-- `conclude` after a script of a walker with a parent page: the child-page roots -/
 theorem conclude_children_spec (hs : H.Sound) {D : Path → Prop} {P0 : PageId} {root : Node} {S S' : List (Key × VH)}
     (hS : KeysOK S) (hS' : KeysOK S') {all : List (Step VH)} (hso : ScriptOK S S' all)
     (hrep : Rep0 H D S (flatStore H ps root)) {w : Walker Node} {a : TW Node}
-    (h : RunInv H ps D (some P0) root S S' all [] w a) :
-    (∃ roots pages, w.conclude H = .ok (.childPageRoots roots pages) ∧
+    (h : RunInv H ps D (some P0) root S S' all [] w a)
+    (hnd : ((a.conclude H (cfgOf H ps (some P0))).log.map (·.1)).Nodup) :
+    ∃ roots pages, w.conclude H = .ok (.childPageRoots roots pages) ∧
       (∀ e ∈ roots, e.2 = specNode H S' e.1.path ∧ e.1.path.length = 6 * (P0.length + 1)) ∧
       ∀ o ∈ pages, ∃ P pg d b, o = .updated P pg d b ∧ pg.nodes.length = 126 ∧
         (∀ q, q ≠ [] → q.length ≤ 256 → specPage q = P → D q → Mean S' q →
           pg.nodes.getD (specIndex q) H.term = specNode H S' q) ∧
-        ∃ base, BaseOf ps P base ∧ DiffNames H pg.nodes base d) ∨
-    w.conclude H = .panic GUARD := by
-  rcases sim_compactUp H ps h.sim none (by intro t ht; cases ht) []
-    (fun hr => absurd hr (by rw [h.norec]; simp)) with ⟨w1, hw1, hs1, hsame1⟩ | ⟨_, hp⟩
-  case inr =>
-    right
-    unfold Walker.conclude
-    rw [if_neg (by rw [h.norec]; simp), hp]
+        (∃ base, BaseOf ps P base ∧ DiffNames H pg.nodes base d) ∧
+        ∀ q ∈ (a.conclude H (cfgOf H ps (some P0))).wl, q ≠ [] → specPage q = P → d.changed (specIndex q) = true := by
+  have hposle := conclude_pos_le H ps hs hS' hso hrep h
+  obtain ⟨w1, hw1, hs1, hsame1⟩ := sim_compactUp H ps h.sim none (by intro t ht; cases ht)
+    (a.conclude H (cfgOf H ps (some P0))).log hnd
+    ⟨fun hr => absurd hr (by rw [h.norec]; simp), by
+      rw [h.par]; simp only [Option.map_none]; exact List.prefix_refl _⟩
   have hnr1 : w1.reconstruction = false := hsame1.2.2.2.2.trans h.norec
   rw [h.par] at hs1
   simp only [Option.map_none] at hs1
@@ -165,7 +219,7 @@ theorem conclude_children_spec (hs : H.Sound) {D : Path → Prop} {P0 : PageId} 
       · intro e he; rw [hidle.log] at he; cases he
     · obtain ⟨_, _, _, c4, c5, _⟩ := tw_conclude_spec H D hs hS' hso hrep (cfgOf H ps (some P0)) a hinv _ rfl
       exact ⟨c5, c4⟩
-  refine Or.inl ⟨w1.childPageRoots, w1.outputPages, rfl, ?_, ?_⟩
+  refine ⟨w1.childPageRoots, w1.outputPages, rfl, ?_, ?_⟩
   · intro e he
     have hmem : (e.1.path, e.2) ∈ (a.conclude H (cfgOf H ps (some P0))).cpr := by
       have hc := hs1.cpr
@@ -175,9 +229,30 @@ theorem conclude_children_spec (hs : H.Sound) {D : Path → Prop} {P0 : PageId} 
     exact htw.1 _ hmem
   · intro o ho
     obtain ⟨P, pg, d, b, st, e, hmem, hl, hm, hdiff⟩ := outMatches_updated H hs1 hnr1 o ho
-    refine ⟨P, pg, d, b, e, hl, ?_, hdiff⟩
-    intro q hq hql hqp hD hmean
-    rw [hm q hq hql hqp]
-    exact htw.2 (P, st) hmem q hq hqp hql hD hmean
+    refine ⟨P, pg, d, b, e, hl, ?_, hdiff, ?_⟩
+    · intro q hq hql hqp hD hmean
+      rw [hm q hq hql hqp]
+      exact htw.2 (P, st) hmem q hq hqp hql hD hmean
+    · intro q hq hne hqp
+      have hst1 : w1.stack = [] := hs1.stackE.mpr (by
+        show (a.compactUp H (cfgOf H ps (some P0)) none).pos.length ≤ _
+        rw [hpar1]; exact hposle)
+      have := named_outputs H ps hs1 hst1 o ho q hq hne (by rw [hqp, e]; rfl)
+      rw [e] at this; exact this
+
+/-- the slots the tree walker writes along a whole walk (`set_node` / `set_sibling`, in order) -/
+def walkWrites (pp : Option PageId) (root : Node) (steps : List (Step VH)) : List Path :=
+  ((({ pos := [], store := flatStore H ps root, log := [], cpr := [] } : TW Node).run H (cfgOf H ps pp) steps).conclude H
+    (cfgOf H ps pp)).wl
+
+/-- **every meaningful slot at or below a replaced terminal is written** along the walk -/
+theorem walkWrites_block (hs : H.Sound) {S S' : List (Key × VH)} (hS' : KeysOK S') (pp : Option PageId) (root : Node)
+    {steps : List (Step VH)} (hso : ScriptOK S S' steps) :
+    ∀ s ∈ steps, s.2.isSome = true → BlockWritten S' s.1 (walkWrites H ps pp root steps) := by
+  intro s hs' hsome
+  have := tw_run_written H hs hS' (cfgOf H ps pp) steps
+    ({ pos := [], store := flatStore H ps root, log := [], cpr := [] } : TW Node)
+    (fun s1 h1 => ⟨hso.len s1 h1, hso.repl s1 h1⟩) s hs' hsome
+  exact blockWritten_mono this (tw_compactUp_wl_mono H _ _ none)
 
 end Nomt.Walker.G
